@@ -49,6 +49,13 @@ CLAIMED["C09"] = (
     "exhaustively by the engine's solver-driven path exploration.",
     "k = 2 (quick) / 3 (thorough) operations from a populated scenario; purely discrete state, so the solver enumerates "
     "rather than generalises; longer histories are outside the claim", "2/C09")
+CLAIMED["C10"] = (
+    "Bounded model checking of reference cleanup: the relation structure of a 3-lanelet / 2-sign / 1-light / 1-intersection "
+    "network is symbolic (membership flags as solver variables, one relation kind at a time), each removal operation and each "
+    "cut-out (by lanelet type, by a query rectangle at a symbolic position, from a lanelet list) runs on the real code and the "
+    "result is compared with the expected structure: no dangling id, survivors untouched, signs/lights kept iff referenced.",
+    "universe of 3 lanelets; quick tier: a subset of the flags symbolic, thorough: all flags of the kind; single operations "
+    "(sequences are outside the claim); shapely replaced by shapely-lite", "2/C10")
 NOT_YET = {}
 
 props = [json.loads(l) for l in open(os.path.join(ROOT, "properties.jsonl"))]
